@@ -35,8 +35,11 @@ func TestC04Sequences(t *testing.T) {
 	maxLen := run.Scale(4, 5)
 	var rec func(seq []string)
 	emit := func(seq []string) {
-		for variant := 0; variant < 8; variant++ {
-			async, filter, ctxAware := variant&1 != 0, variant&2 != 0, variant&4 != 0
+		for variant := 0; variant < 16; variant++ {
+			async, filter, ctxAware, sameClass := variant&1 != 0, variant&2 != 0, variant&4 != 0, variant&8 != 0
+			if sameClass && ctxAware {
+				continue // the earlier handler is a plain one: a shared class needs a plain once handler
+			}
 			hasR := false
 			for _, k := range seq {
 				if k == "R" {
@@ -53,8 +56,8 @@ func TestC04Sequences(t *testing.T) {
 			p := &prog.Program{Types: []int{idx % len(h.Drivers)}}
 			earlier := &prog.Reg{Class: 0}
 			once := &prog.Reg{Class: 1, Once: true, Async: async, Ctx: ctxAware}
-			if ctxAware {
-				once.Class = 0
+			if ctxAware || sameClass {
+				once.Class = 0 // sameClass: closures of one func literal - same code pointer as the earlier handler
 			}
 			if filter {
 				once.Filter = 5
@@ -89,7 +92,7 @@ func TestC04Sequences(t *testing.T) {
 				}
 				nonConsumingFirst = true
 			}
-			run.Case(fmt.Sprintf("%v|a%v f%v c%v", seq, async, filter, ctxAware), nonConsumingFirst && len(seq) >= 2)
+			run.Case(fmt.Sprintf("%v|a%v f%v c%v s%v", seq, async, filter, ctxAware, sameClass), nonConsumingFirst && len(seq) >= 2)
 			if idx == 4321 {
 				run.Sample(map[string]any{"sequence": seq, "program": p})
 			}
